@@ -54,6 +54,13 @@ fn(H2 + "._send_data", params={"stream_id": "int"}, task="send",
    requires=[("send_data.pre.scheduled", "stream_id != 0 and sel(self.priority.has, stream_id) and in_map(self.stream_buffers, stream_id)")],
    ensures=[
        ("C09.order.same-stream", "trace_all('h2', 'x', x[1] == stream_id)", "C09,C02"),
+       # END_STREAM needs no flow-control credit: a call that ran without suspending does not
+       # leave a registered buffer that is sealed and empty -- it has ended the stream (C05: also
+       # the body-less 500 of a failed application is terminated promptly, whatever the windows)
+       ("C09.end.when-complete", "yielded() or not in_map(self.stream_buffers, stream_id) "
+        "or not (map_val(self.stream_buffers, stream_id)._complete and len(map_val(self.stream_buffers, stream_id).buffer) == 0)", "C09,C05,C02"),
+       # what goes out as DATA is exactly what was taken from the head of the stream's buffer
+       ("C09.data-is-popped", "trace_all('h2', 'x', implies(x[0] == 'send_data', x[2] == call_result('StreamBuffer.pop')))", "C09,C02"),
        # exactly one END_STREAM: it is the last thing sent for the stream, and the send buffer is
        # unregistered with it, so the stream is never scheduled (or ended) again
        ("C09.end-once", "implies(trace_any('h2', 'x', x[0] == 'end_stream'), emitted('h2')[n_emitted('h2') - 1][0] == 'end_stream' "
